@@ -95,27 +95,10 @@ func (writer *SSTableStreamWriter) WriteNext(key []byte, value []byte) error {
 		} else if cmpResult > 0 {
 			return fmt.Errorf("sstables.WriteNext '%s': non-ascending key cannot be written", writer.opts.basePath)
 		}
-
-		// the size of the key may be variable, that's why we might allocate a new buffer for the last key
-		if len(writer.lastKey) != len(key) {
-			writer.lastKey = make([]byte, len(key))
-		}
 	} else {
 		if writer.metaData == nil {
 			return fmt.Errorf("sstables.writeNext '%s': no metadata available to write into, table might not be opened yet", writer.opts.basePath)
 		}
-
-		writer.metaData.MinKey = make([]byte, len(key))
-		writer.lastKey = make([]byte, len(key))
-		copy(writer.metaData.MinKey, key)
-	}
-
-	copy(writer.lastKey, key)
-
-	if writer.opts.enableBloomFilter {
-		fnvHash := fnv.New64()
-		_, _ = fnvHash.Write(key)
-		writer.bloomFilter.Add(fnvHash)
 	}
 
 	crc := crc64.New(crc64.MakeTable(crc64.ISO))
@@ -135,6 +118,25 @@ func (writer *SSTableStreamWriter) WriteNext(key []byte, value []byte) error {
 		// in case of failures we need to try to rewind the data writer's offset to preWriteOffset
 		seekErr := writer.dataWriter.Seek(preWriteOffset)
 		return fmt.Errorf("error writeNext index writer/seeker error in '%s': %w", writer.opts.basePath, errors.Join(err, seekErr))
+	}
+
+	// only a write that succeeded may become visible in the last key, the bloom filter and the metadata. Otherwise, a failed
+	// write would still reject later keys as non-ascending and be reported as the minimum / maximum key of the table.
+	if writer.lastKey == nil {
+		writer.metaData.MinKey = make([]byte, len(key))
+		copy(writer.metaData.MinKey, key)
+	}
+
+	// the size of the key may be variable, that's why we might allocate a new buffer for the last key
+	if writer.lastKey == nil || len(writer.lastKey) != len(key) {
+		writer.lastKey = make([]byte, len(key))
+	}
+	copy(writer.lastKey, key)
+
+	if writer.opts.enableBloomFilter {
+		fnvHash := fnv.New64()
+		_, _ = fnvHash.Write(key)
+		writer.bloomFilter.Add(fnvHash)
 	}
 
 	writer.metaData.NumRecords += 1
